@@ -970,9 +970,14 @@ func c29StressQueue(c c29StressCase, r *vp.Rec) error {
 		cons.Add(1)
 		go func(i int) {
 			defer cons.Done()
+			// The number of cancelled gets is bounded, so that a consumer that can
+			// never get an item ends up durably blocked (deadlock detection) instead
+			// of retrying forever.
+			budget := 2*c.Iter + 2
 			for k := 0; ; k++ {
 				ctx, cancel := context.WithCancel(context.Background())
-				if c.Cancel > 0 && (k+i)%c.Cancel == 0 {
+				if c.Cancel > 0 && (k+i)%c.Cancel == 0 && budget > 0 {
+					budget--
 					go cancel()
 				}
 				v, err := q.get(ctx)
